@@ -16,8 +16,7 @@ MODULE = "StorageModel.Properties.C01"
 THEOREMS = [
     "transform_total", "eval_refines_sat", "seek_eq_scan", "query_shortcut_free", "subquery_count_exact",
     "null_rules", "engine_null_rules", "null_literal_rule", "not_forms_negate",
-    "stacked_eq_flatMap", "resolve_refines_path", "world_refines_spec", "query_exact", "query_exact_short_names",
-    "subquery_tail_violates", "tail_drop_violates", "query_exact_full_fails",
+    "stacked_eq_flatMap", "resolve_refines_path", "world_refines_spec", "query_exact", "symbol_tables_exact",
 ]
 
 
@@ -103,9 +102,7 @@ def _has_flag(flag):
     return m
 
 
-MATCHERS = {
-    "subquery-over-set-then-links": _has_flag("subtail"),
-}
+MATCHERS = {}  # no open finding (sub-queries over set.link.link chains: fixed in 0441eb9)
 
 RULE = ("non-trivial = well-typed filter accepted by ast.Parse whose answer separates the rows of its dataset (at least "
         "one row matches and one does not); distinct = distinct typed-tree shapes (node classes + symbol names) among "
